@@ -44,6 +44,23 @@ CHECKS.update({
             "for <=5 sources, <=4 destinations, all flags: every random outcome satisfies the distribution contract", ENUM_NOTE),
 })
 
+FAULT_NOTE = ("trusted base: virtual loop, stubs, the in-memory stream transport that stands in for sockets "
+              "(it runs the real Channel/RemoteProxy/mosaik_api_v3 code; its close/EOF/write-after-loss "
+              "behaviour is modelled after asyncio's stream transport, both 'write fails' and 'write is "
+              "buffered silently' are explored); one fault per run; real sockets/processes only in "
+              "findings/realproc (demonstration, not part of the exhaustive claim)")
+CHECKS.update({
+    "C13": ("fault_enumeration", "3 C13", "fault enumeration inside the schedule exploration: every malformed reply value x every simulator x every step index of 4 topologies, all reply-delivery schedules with <=1 early delivery, local and in-memory remote transport",
+            "every malformed reply aborts run() with an error naming the simulator, which is not stepped again; steps of other simulators begun afterwards still satisfy the step-set and data-flow monitors", FAULT_NOTE),
+    "C14": ("fault_enumeration", "3 C14", "crash-point enumeration inside the schedule exploration: every request index of every simulator x {handler raises, connection closed, process dies mid-request, process dies while idle} x {local, in-memory remote} x all schedules with <=1 (thorough <=2) early deliveries, timer-vs-reply races included",
+            "run() never hangs after a fault, every other simulator gets exactly one stop/finalize, loop closed, no mosaik task or channel left (known finding F10 apart)", FAULT_NOTE),
+    "C16": ("model_checking", "3 C16", "stateful DFS over reply-delivery schedules of A + 1-2 async agents (every step ratio, every subset of steps calling set_data, a gate after the call-back), negative cases; local and in-memory remote",
+            "in every explored schedule set_data values reach A exactly once in its next step, A never overtakes an unfinished agent step, unconnected requests are refused with ScenarioError", SCHED_NOTE),
+    "C17": ("model_checking", "3 C17", "exhaustive enumeration of step-latency assignments (alphabet of multiples of the real-time step) and external-event placements on a virtual clock; strict vs non-strict differential",
+            "for every latency assignment within the bound: pacing lower bound holds, runs complete, events are stepped/ignored as specified, rt_strict only turns the first report into an error (known finding F12 apart)",
+            "trusted base: virtual clock (perf_counter rebound to virtual time + strictly increasing tick); bounds: <=3 simulators, until<=4, <=2 events"),
+})
+
 NOT_YET = {
 }
 
